@@ -136,6 +136,7 @@ DEC_STRICT_OK = fun("bytes_decode_strict_ok", S, S, B)
 ENC_IGN = fun("str_encode_ignore", S, S, S)            # s.encode(cs, errors="ignore")
 RSTRIP_EOL = fun("bytes_rstrip_crlf", S, S)            # b.rstrip(b"\r\n")
 B64D = fun("base64_b64decode", S, S)
+REPLACE_ALL = fun("str_replace_all", S, S, S, S)       # x.replace(old, new)
 LOWER = z3.Function("str_lower", S, S)                 # same symbol as contracts/C07.py
 
 # re: match list of a compiled pattern over data
@@ -497,6 +498,41 @@ class MailExecutor(UnitsExecutor):
             return z3.IntVal(len(items)), (lambda k, items=items: X._sel(items, k)), kind
         return None
 
+    def e_List(self, n, st):
+        """(round 6) a list display with `*xs` of a symbolic sequence: the concatenation of its segments"""
+        if not any(isinstance(e, ast.Starred) for e in n.elts):
+            return super().e_List(n, st)
+        try:
+            return super().e_List(n, st)
+        except Unsupported as e:
+            if "starred of symbolic iterable" not in str(e):
+                raise
+        segs, cur = [], []
+        for e in n.elts:
+            if isinstance(e, ast.Starred):
+                if cur:
+                    segs.append(ast.List(elts=cur, ctx=ast.Load()))
+                    cur = []
+                segs.append(e.value)
+            else:
+                cur.append(e)
+        if cur:
+            segs.append(ast.List(elts=cur, ctx=ast.Load()))
+        acc = [(st, None)]
+        for seg in segs:
+            nxt = []
+            for (s, a) in acc:
+                for (s2, v) in self.ev(ast.copy_location(seg, n) if not hasattr(seg, "lineno") else seg, s):
+                    if self._listlike(s2, v) is None:
+                        raise Unsupported(f"{self.loc(n)} starred of something that is not a list")
+                    if a is None:
+                        n1, e1, k1 = self._listlike(s2, v)
+                        nxt.append((s2, self.new_alist(s2, VSeq(n1, e1, k1))))
+                    else:
+                        nxt.extend(self.binop(s2, "Add", a, v, n))
+            acc = nxt
+        return acc
+
     def b_zip(self, st, args, kwargs, node):
         args = [st.obj(a.ref).data if isinstance(a, VRef) and st.obj(a.ref).kind == "alist" else a for a in args]
         return super().b_zip(st, args, kwargs, node)
@@ -673,6 +709,25 @@ class MailExecutor(UnitsExecutor):
             return self.call_method(st2, obj.val, name, args, kwargs, node)
         if isinstance(obj, VBytes) and name in ("decode", "rstrip"):
             obj = VStr(bytes_term(obj))
+        if isinstance(obj, (VStr, VDyn)) and name == "replace" and len(args) == 2 and not kwargs \
+                and all(isinstance(a, (VStr, VBytes)) for a in args):
+            # (round 6) x.replace(old, new) of a symbolic str / bytes: ASSUMED (CPython) -- total; the result is x itself iff old
+            # does not occur in x or old == new.  What it is otherwise stays uninterpreted (a function of the three arguments).
+            try:
+                t, old, new = bytes_term(obj) if not isinstance(obj, VDyn) else obj.t, bytes_term(args[0]), bytes_term(args[1])
+            except Unsupported:
+                t = None
+            if t is not None:
+                r = REPLACE_ALL(t, old, new)
+                st.assume(z3.And(z3.Implies(z3.Or(z3.Not(z3.Contains(t, old)), old == new), r == t),
+                                 z3.Implies(z3.And(z3.Contains(t, old), old != new), r != t)))
+                return [(st, VDyn(r, obj.isb) if isinstance(obj, VDyn) else VStr(r))]
+        if type(obj) is VStr and name == "split" and not args and not kwargs and obj.const() is None:
+            # (round 6) s.split() of a symbolic str: ASSUMED total; the list of white-space separated words, a function of s
+            n = fun("str_wssplit_n", S, I)(obj.t)
+            at = fun("str_wssplit_at", S, I, S)
+            st.assume(n >= 0)
+            return [(st, VSeq(n, lambda k, t=obj.t: VStr(at(t, k)), "str"))]
         if isinstance(obj, VStr):
             if name == "decode":
                 return self.m_decode(st, obj, args, kwargs, node)
@@ -809,14 +864,27 @@ class MailExecutor(UnitsExecutor):
         decides from the sequence the loop walks what it has to say, so adding, removing or reordering loops re-verifies.  The
         label (part of the obligation ids) is the last name of the iterated expression (`for a in mail.attachments` -> attachments)."""
         spec = super().loop_spec(node)
-        if spec is None and self.contract is not None and self.inline_depth == 0 and "*" in self.contract.loops:
+        # (round 6) the wildcard invariant is content-based (it reads the walked sequence, not the function's locals), so it also
+        # applies to loops of private helpers of the same module that are executed in place (`extract method` of a stage)
+        inlined_local = self.inline_depth > 0 and self.cur_fn_stack and not isinstance(self.cur_fn_stack[-1], ast.Lambda) \
+            and any(self.cur_fn_stack[-1] is f for f in self.module.functions.values())
+        if spec is None and self.contract is not None and (self.inline_depth == 0 or inlined_local) and "*" in self.contract.loops:
             from pyvc.contracts import LoopSpec
             e = node.iter if isinstance(node, ast.For) else None
             while isinstance(e, ast.Call) and e.args:
                 e = e.args[0]
             label = e.attr if isinstance(e, ast.Attribute) else (e.id if isinstance(e, ast.Name) else "loop")
             wild = self.contract.loops["*"]
-            return LoopSpec(inv=wild.inv, label=label)
+            spec = LoopSpec(inv=wild.inv, label=label)
+        if spec is not None and spec.inv is not None and not getattr(spec.inv, "_records_checked", False):
+            import dataclasses
+            inner = spec.inv
+
+            def inv(lc, inner=inner):
+                self.check_records(lc)
+                return inner(lc)
+            inv._records_checked = True
+            spec = dataclasses.replace(spec, inv=inv)
         return spec
 
     def symbolic_for(self, s, st, it):
@@ -833,6 +901,13 @@ class MailExecutor(UnitsExecutor):
                          for b in s.body for n in ast.walk(b))
             self._map_shapes = {}
             self._append_kinds = self.probe_kinds(s, st, it) if builds else {}
+            spec = self.loop_spec(s)
+            if (spec is None or (spec.inv is None and spec.inv_point is None)) and self.seq_view(st, it) is not None \
+                    and (builds or self.assigned_names(s.body)):
+                # (round 6) a symbolic loop cut with invariant `True`: whatever the loop assigns / builds is arbitrary afterwards.
+                # That is an over-approximation, not a fact about the code -- a VC refuted on this path is `unknown` (the native
+                # replayer decides), like after an unmodelled call.
+                self.tag_havoc(st, "loop cut without invariant", s)
         return super().symbolic_for(s, st, it)
 
     # --------------------------------------------------- maps with symbolic STRING keys --
@@ -873,7 +948,48 @@ class MailExecutor(UnitsExecutor):
         d.update(self._smap_fresh(shape))
         st.heap[ref] = HeapObj("amap", d, None, o.fresh)
 
+    # ------------------------------------------ dicts used as RECORDS (round 6) --
+    # A dict with constant str keys and str values (`bodies = {"text/plain": "", "text/html": ""}`) that a loop updates through a
+    # symbolic key which the path condition places among the keys (`if key not in d: continue`): the store updates every entry
+    # by `If(key == k, v, old)`.  Across a symbolic loop WITH an invariant such a dict keeps its keys and gets arbitrary str
+    # values; "the key set is unchanged" is then part of the invariant (checked in front of the pack's own invariant at every
+    # preserve point: a body that adds / removes a key or stores something else leaves the verified subset).
+    @staticmethod
+    def _is_record(o):
+        return o is not None and o.kind == "dict" and isinstance(o.data, dict) and o.data and \
+            all(isinstance(k, str) for k in o.data) and all(type(x) is VStr for x in o.data.values())
+
+    def _records_before_havoc(self, st, body, spec):
+        records = {}
+        if spec is not None and spec.inv is not None and not self._probing:
+            for ref in self.mutated_refs(body, st):
+                o = st.heap.get(ref)
+                if self._is_record(o):
+                    records[ref] = (o, list(o.data))
+        return records
+
+    def _records_after_havoc(self, st, records):
+        for ref, (o, keys) in records.items():
+            st.heap[ref] = HeapObj("dict", {k: VStr(z3.String(fresh_name(f"rec{ref}.{k}"))) for k in keys}, o.cls, False)
+            st.ghost[("record", ref)] = tuple(keys)
+
+    def check_records(self, lc):
+        for key, keys in list(lc.st.ghost.items()):
+            if isinstance(key, tuple) and len(key) == 2 and key[0] == "record":
+                o = lc.st.heap.get(key[1])
+                if not self._is_record(o) or tuple(o.data) != tuple(keys):
+                    raise Unsupported("a dict kept as a record across the loop does not keep its keys / str values")
+                if lc.extra.get("phase") == "exit":
+                    del lc.st.ghost[key]
+
     def store_index(self, st, base, idx, v, node):
+        if isinstance(base, VRef) and type(idx) is VStr and idx.const() is None and type(v) is VStr and self._is_record(st.obj(base.ref)):
+            keys = list(st.obj(base.ref).data)
+            if not self.feasible(st.pc, z3.And([idx.t != z3.StringVal(k) for k in keys])):
+                w = st.wobj(base.ref)
+                w.data = {k: VStr(z3.If(idx.t == z3.StringVal(k), v.t, old.t)) for k, old in w.data.items()}
+                self.note_store(st, base.ref, node)
+                return [st]
         o = self._smap_obj(st, base)
         if o is not None and isinstance(idx, (VStr, VOpt)) and not (isinstance(idx, VStr) and idx.const() is not None and o.kind == "dict"):
             key = self.unwrap(st, idx)
@@ -958,7 +1074,9 @@ class MailExecutor(UnitsExecutor):
                     st.heap[ref] = HeapObj("alist", _empty_seq(kind), None, o.fresh)
             if "dispatch" in st.ghost:
                 st.ghost["dispatch"] = ()
+        records = self._records_before_havoc(st, body, spec)
         super().havoc_loop_state(st, body, spec, extra_names)
+        self._records_after_havoc(st, records)
 
     def y_havoc(self, st):
         super().y_havoc(st)
@@ -1453,9 +1571,75 @@ def built_list(lc, ordinal=0, kind="str"):
     return r
 
 
+# ------------------------------------------- bounded refuter: joins of DIFFERENT lengths --
+def multi_join_refuter(pc, goal, timeout_ms=None):
+    """(round 6) DESIGN 2.5.3a for VCs with several `sep.join(seq)` whose lengths are different terms (e.g. the joined plain parts
+    and `[body, *other_parts]`): the uninterpreted length atoms get every combination of values 0..2, each join whose length is
+    then a number is written out (nested joins innermost-last, three rounds).  `sat` is a counter-model in which join is the
+    real join; other spec functions stay uninterpreted, the native replayer confirms."""
+    import itertools
+    fs = [f for f in list(pc) + [z3.Not(goal)]]
+    joins = X._collect_joins(fs)
+    if not joins:
+        return None
+    atoms = {}
+
+    def collect_atoms(t):
+        if z3.is_int_value(t):
+            return
+        if z3.is_app(t) and t.decl().kind() in (z3.Z3_OP_ADD, z3.Z3_OP_SUB, z3.Z3_OP_ITE, z3.Z3_OP_LT, z3.Z3_OP_LE, z3.Z3_OP_GT, z3.Z3_OP_GE):
+            for ch in t.children():
+                collect_atoms(ch)
+        elif t.sort() == I:
+            atoms[t.get_id()] = t
+    for j in joins:
+        collect_atoms(j.arg(2))
+    atoms = list(atoms.values())
+    if not atoms or len(atoms) > 3:
+        return None
+    for combo in itertools.product(range(3), repeat=len(atoms)):
+        cur = [z3.substitute(f, *[(a, z3.IntVal(v)) for a, v in zip(atoms, combo)]) for f in fs]
+        ok = True
+        for _round in range(3):
+            js = X._collect_joins(cur)
+            if not js:
+                break
+            subs = []
+            for j in js:
+                L = z3.simplify(j.arg(2))
+                if not z3.is_int_value(L) or L.as_long() > 4:
+                    continue
+                n, sep, arr = L.as_long(), j.arg(0), j.arg(1)
+                e = z3.StringVal("") if n <= 0 else z3.Select(arr, z3.IntVal(0))
+                for i in range(1, n):
+                    e = z3.Concat(e, sep, z3.Select(arr, z3.IntVal(i)))
+                subs.append((j, e))
+            if not subs:
+                ok = False
+                break
+            cur = [z3.simplify(z3.substitute(f, *subs)) for f in cur]
+        if not ok or X._collect_joins(cur):
+            continue
+        sv = z3.Solver()
+        sv.set("timeout", min(timeout_ms or 3000, 3000))
+        sv.add(*cur)
+        for a, v in zip(atoms, combo):
+            sv.add(a == v)
+        if sv.check() == z3.sat:
+            return "falsified by bounded instantiation: sequence lengths " + ", ".join(f"{a} = {v}" for a, v in zip(atoms, combo)) + ", joins written out"
+    return None
+
+
+def register_refuter():
+    from pyvc import solve
+    if multi_join_refuter not in solve.EXTRA_REFUTERS:
+        solve.EXTRA_REFUTERS.append(multi_join_refuter)
+
+
 # ============================================================ assumed library models ==
 def install(reg):
     X.install(reg)
+    register_refuter()
     from contracts import common
     common.install_bytesio(reg)
 
@@ -1651,6 +1835,9 @@ def install(reg):
 
     reg.attr_models[("Mail", "text_plain")] = text_attr("text_plain")
     reg.attr_models[("Mail", "text_html")] = text_attr("text_html")
+    # (round 6) mailparser's third bucket: inline parts without a file name that are neither text/plain nor text/html (ASSUMED: a
+    # list of str like the other two; nothing relates it to them)
+    reg.attr_models[("Mail", "text_not_managed")] = text_attr("text_not_managed")
 
     def a_attachments(ex, st, obj):
         st.assume(MA_N(obj.t) >= 0)
@@ -1735,7 +1922,16 @@ def install(reg):
             return [(st, VInt(RS_START(t.arg(0), t.arg(1))))]
         raise Unsupported("start of an unknown match")
 
+    def m_pat_search(ex, st, o, a, k, n):
+        """(round 6) compiled_pattern.search(s) == re.search(pattern, s) for a pattern compiled from a constant without flags"""
+        t = o.t
+        pat = t.arg(0).as_string() if z3.is_app(t) and t.decl().name() == "re_compiled" and z3.is_string_value(t.arg(0)) else None
+        if pat is None or len(a) != 1 or k:
+            raise Unsupported(f"{ex.loc(n)} pattern.search on an unknown pattern / with a position")
+        return m_re_search(ex, st, [VStr(pat), a[0]], {}, n)
+
     reg.ext_models["re.search"] = m_re_search
+    reg.method_models[("RePattern", "search")] = m_pat_search
     reg.method_models[("SMatch", "group")] = m_sm_group
     reg.method_models[("SMatch", "start")] = m_sm_start
 
